@@ -10,6 +10,7 @@ from .engine import NEXT, Raise
 
 def loop_key(ex, node):
     """static identity of a loop: header text + source-order ordinal among loops with the same header"""
+    if getattr(node, '_comp_key', None): return node._comp_key
     hdr = header_text(node)
     same = [n for n in ast.walk(ex.spec.node) if isinstance(n, (ast.For, ast.While)) and header_text(n) == hdr]
     same.sort(key=lambda n: (n.lineno, n.col_offset))
